@@ -361,6 +361,9 @@ func (c *Ctx) Finish(cov Coverage) {
 	for k, v := range cov.Extra {
 		covm[k] = v
 	}
+	if c.Assume == nil {
+		c.Assume = []string{}
+	}
 	ev := map[string]any{
 		"property_id": c.Prop, "tier": c.Tier, "seed": c.Seed, "level": "model_checking",
 		"coverage": covm, "assumptions": c.Assume,
